@@ -5,13 +5,32 @@
   conditions and assignments is GLua/Spec/CondSpec.lean (written from the manual).
 -/
 import GLua.Proofs.ConstFold
+import GLua.Proofs.ConstFoldLink
 import GLua.Proofs.Lowering
 import GLua.Proofs.Assign
 import GLua.Proofs.LoweringValue7
+import GLua.Proofs.LoweringBC
+import GLua.Proofs.LoweringBCLeaf
+import GLua.Proofs.LoweringErr3
 import GLua.Proofs.Threading
 
 namespace GLua.Props.C01
 open GLua GLua.Compile GLua.MiniVM GLua.Lowering
+
+/-- a number structure over the integers for the non-vacuity examples (`/` truncates, `^` takes the exponent's
+    absolute value: any total operations do, nothing is assumed about them). -/
+@[reducible] def intNum : NumStruct where
+  N := Int
+  deq := inferInstance
+  add := (· + ·)
+  sub := (· - ·)
+  mul := (· * ·)
+  div := (· / ·)
+  mod := ConstFold.luaModuloInt
+  pow := fun a b => a ^ b.toNat
+  neg := (- ·)
+  lit := id
+  isNaN := fun _ => false
 
 /-! ## 1. compile-time constant folding equals run-time arithmetic -/
 
@@ -66,22 +85,62 @@ theorem luaModulo_int (a b : Int) (hb : b ≠ 0) : ConstFold.luaModuloInt a b = 
 example : ConstFold.luaModuloInt (-5) 3 = 1 ∧ ConstFold.luaModuloInt 5 (-3) = -1 := by decide
 
 
+/-! ## 1b. the compile model's fold test is `constFold` -/
+
+/-- **fold_test_is_constFold** — the test `compileArithmeticOpExpr` / `compileUnaryOpExpr` make
+    (`constFold(expr).(*constLValueExpr)`) is, on the tree as the parser produced it, the function `lnum` the compile
+    model uses: `lnum e = lnumberValue (constFold (toCF e))` for the function-by-function model of `constFold`. -/
+theorem fold_test_is_constFold [NumStruct] (e : Cond) :
+    lnum e = ConstFold.lnumberValue ConstFold.nsOps (ConstFold.constFold ConstFold.nsOps (ConstFold.toCF e)).1 :=
+  ConstFold.lnum_eq_constFold e
+
+/-- **constFold_again** — `constFold` run again on the node an earlier call RETURNED, or on the tree as an earlier call
+    LEFT it (children of unary minus overwritten by their folded forms), finds the same constant (or none): earlier
+    calls — compileArithmeticOpExpr folds every arithmetic node of a tree, outermost first — never change what a later
+    one folds.  (∀ number structures, ∀ trees.) -/
+theorem constFold_again {N : Type} (ops : ConstFold.NumOps N) (e : ConstFold.Expr N) :
+    ConstFold.lnumberValue ops (ConstFold.constFold ops (ConstFold.constFold ops e).1).1
+        = ConstFold.lnumberValue ops (ConstFold.constFold ops e).1 ∧
+    ConstFold.lnumberValue ops (ConstFold.constFold ops (ConstFold.constFold ops e).2).1
+        = ConstFold.lnumberValue ops (ConstFold.constFold ops e).1 :=
+  ConstFold.constFold_again ops e
+
+/-- **fold_is_sound_for_the_manual** — a tree that the compiler folds to the constant x has the value x in the manual's
+    semantics (hence never raises), for every lawful value domain: the only facts used are the two laws
+    "arithmetic / unary minus on NUMBERS is the number structure's operation". -/
+theorem fold_is_sound_for_the_manual [NumStruct] {V : Type} (d : Dom V) (hd : d.Lawful) (ρ γ : Nat → V) (e : Cond) (x : NumStruct.N)
+    (h : lnum e = some x) : CondSpec.eval d ρ γ e = some (d.num x) :=
+  lnum_eval d hd ρ γ e x h
+
+section
+attribute [local instance] intNum
+/-- non-vacuity: `-(2 + 3) % 4` folds (to 3 with the modelled modulo), `-(2 + l0)` does not. -/
+example : lnum (.arith .mod (.unm (.arith .add (.num 2) (.num 3))) (.num 4)) = some (3 : Int) := by decide
+example : lnum (.unm (.arith .add (.num 2) (.loc 0))) = none := by decide
+end
+
+
 /-! ## 2. lowering of conditions (compileBranchCondition + label resolution)
 
-    `Lowering.BCFrag e`  : `e` is built from and / or / not, relational operators whose operands are leaves,
-                           the constants true/false/nil/number/string, locals and opaque atoms;
+    `Lowering.BCFrag e`  : the ORIGINAL fragment: `e` is built from and / or / not, relational operators whose operands
+                           are leaves, the constants true/false/nil/number/string, locals and opaque atoms;
+    `Lowering.rh e`      : register height — the code of `e` compiled at `reg` writes no register above `reg + rh e`;
     `Lowering.P0 F`      : the code of the (final) compile state `F` with every `JMP label` resolved to its distance
                            (`patchCode` without jump threading and MOVEN merging);
     `Lowering.tgt F L`   : where a jump to label `L` lands;
-    `CondSpec.eval`      : the manual's value of the condition (short-circuit semantics, §2.5.3–2.5.4). -/
+    `CondSpec.eval`      : the manual's value of the expression (short-circuit semantics §2.5.3, arithmetic §2.5.1,
+                           comparison §2.5.2, concatenation §2.5.4, length §2.5.5; `none` = raises). -/
 
-/-- **branch_lowering_correct** (branch contexts: the condition of if / while / repeat) — for every condition
-    tree of the fragment, every compile state before it, every register file and atom valuation on which the
-    condition does not raise, and EVERY completion `F` of the compile state (the emitted code and constants are
-    still there, the labels allocated inside keep their binding, the then-label is bound right behind the
-    condition as compileIfStmt/While/Repeat do): running the label-resolved code from the first instruction of
-    the condition reaches the then-target iff the manual's value is truthy, the else-target otherwise, and
-    every register below `reg` is unchanged.  (Unbounded: structural induction over the tree.) -/
+section Generic
+variable [NumStruct]
+
+/-- **branch_lowering_correct** (branch contexts: the condition of if / while / repeat; ORIGINAL fragment, original
+    hypotheses) — for every condition tree of the fragment, every compile state before it, every register file and
+    atom valuation on which the condition does not raise, and EVERY completion `F` of the compile state (the emitted
+    code and constants are still there, the labels allocated inside keep their binding, the then-label is bound right
+    behind the condition as compileIfStmt/While/Repeat do): running the label-resolved code from the first instruction
+    of the condition reaches the then-target iff the manual's value is truthy, the else-target otherwise, and every
+    register below `reg` is unchanged.  (Unbounded: structural induction over the tree.) -/
 theorem branch_lowering_correct {V : Type} (d : Dom V) (hd : d.Lawful) (e : Cond) (hfrag : BCFrag e)
     (st F : CState) (reg thenl elsel : Nat) (ρ γ : Nat → V) (v : V)
     (htop : st.regTop ≤ reg) (hloc : LocalsBelow reg e) (hreg : reg + 1 < 256)
@@ -111,7 +170,140 @@ theorem branch_lowering_correct {V : Type} (d : Dom V) (hd : d.Lawful) (e : Cond
     · simpa [h] using hr
     · exact Bool.noConfusion h
 
-/-- non-vacuity: the hypotheses hold for the if statement
+/-- the general form for sub-conditions (any `hasnextcond`, labels bound anywhere): control ends at the
+    then-label / else-label or, for the side that does not jump, behind the condition's code. -/
+theorem branch_lowering_general {V : Type} (d : Dom V) (hd : d.Lawful) (e : Cond) (hfrag : Lowering.BCFrag e)
+    (st F : Compile.CState) (reg thenl elsel : Nat) (hasnext : Bool) (ρ γ : Nat → V) (v : V)
+    (htop : st.regTop ≤ reg) (hloc : Lowering.LocalsBelow reg e) (hreg : reg + 1 < 256)
+    (hLt : Lowering.LabelOK F thenl) (hLe : Lowering.LabelOK F elsel)
+    (hev : CondSpec.eval d ρ γ e = some v)
+    (hF : (Compile.compileBranchCondition st reg e thenl elsel hasnext).code <+: F.code)
+    (hK : (Compile.compileBranchCondition st reg e thenl elsel hasnext).consts <+: F.consts)
+    (hlab : ∀ L, st.labelId ≤ L → L < (Compile.compileBranchCondition st reg e thenl elsel hasnext).labelId →
+        Compile.getLabelPc F L = Compile.getLabelPc (Compile.compileBranchCondition st reg e thenl elsel hasnext) L) :
+    ∃ ρ' pc', MiniVM.Reaches d (Lowering.P0 F) F.consts ⟨st.code.length, ρ, γ⟩ ⟨pc', ρ', γ⟩ ∧ (∀ x, x < reg → ρ' x = ρ x) ∧
+      Lowering.BranchOut F thenl elsel hasnext (Compile.compileBranchCondition st reg e thenl elsel hasnext).code.length (d.truthy v) pc' :=
+  Lowering.bc_correct d hd e hfrag st F reg thenl elsel hasnext ρ γ v htop hloc hreg hLt hLe hev hF hK hlab
+
+/-- **value_lowering_correct** (value contexts, ORIGINAL fragment — now a corollary of `value_lowering_correct_ext`):
+    `local x = e`, `x = e` with x an EXISTING local that may also be an operand, `g = e`, `return e`, operand of
+    not / a relational operator, any position of a multiple assignment. -/
+theorem value_lowering_correct {V : Type} (d : Dom V) (hd : d.Lawful) (e : Cond) (hfrag : BCFrag e)
+    (st F : CState) (reg : Nat) (ec : ExpCtx) (ρ γ : Nat → V) (v : V)
+    (htop : st.regTop ≤ reg) (hloc : LocalsBelow reg e) (hreg : reg + 1 < 256) (hdest : savereg ec reg ≤ reg)
+    (hev : CondSpec.eval d ρ γ e = some v) (hok : ∀ L, LabelOK F L)
+    (hF : (compileExpr st reg e ec).1.code <+: F.code)
+    (hK : (compileExpr st reg e ec).1.consts <+: F.consts)
+    (hlab : ∀ L, st.labelId ≤ L → L < (compileExpr st reg e ec).1.labelId →
+        getLabelPc F L = getLabelPc (compileExpr st reg e ec).1 L) :
+    ∃ ρ', Reaches d (P0 F) F.consts ⟨st.code.length, ρ, γ⟩ ⟨(compileExpr st reg e ec).1.code.length, ρ', γ⟩ ∧
+      ρ' (savereg ec reg) = v ∧ ∀ x, x < reg → x ≠ savereg ec reg → ρ' x = ρ x :=
+  (value_main d hd e).1 st F reg ec ρ γ v htop hloc (by have := rh_BCFrag e hfrag; omega) hdest hev hok hF hK hlab
+
+/-! ### 2b. the extended fragment: EVERY expression of the model
+
+    arithmetic `+ - * / % ^` (compileArithmeticOpExpr: constFold first, operands through PropagateKMV), unary minus
+    and `#` and `not` on arbitrary sub-expressions (compileUnaryOpExpr: PropagateMV), concatenation chains
+    (compileStringConcatOpExpr: consecutive registers, the popped inner CONCATs, one right-to-left join),
+    relational operators whose operands are arbitrary expressions, and all mixtures with and / or / not. -/
+
+/-- **value_lowering_correct_ext** — for EVERY expression tree `e` of the model (no fragment restriction), every
+    destination context `ec` (destination `savereg ec reg` = the free register `reg` or an EXISTING local below it,
+    which may also be an operand of `e`), every compile state `st` with `regTop ≤ reg`, every register file `ρ` and
+    atom valuation `γ` on which the manual's evaluation of `e` does not raise, and EVERY completion `F` of the compile
+    state: running the label-resolved code from the first instruction of `e` reaches the end of `e`'s code with the
+    manual's VALUE in the destination, and every register below `reg` other than the destination — i.e. every live
+    local — is unchanged.  Operands are evaluated left to right (the theorem is proved through `bops_sem`: left operand
+    code, then right operand code, then the instruction).  The number structure is arbitrary: arithmetic is
+    uninterpreted and total, the operations of the value domain may raise (`none`), and constant folding is covered
+    through the two laws of `Dom.Lawful` on numbers.  Guards: registers stay below 256 (`reg + rh e < 256`; the
+    compiler itself stops at 200); NO guard on the constant pool (a constant whose index exceeds 255 is simply not
+    turned into an RK operand, and the theorem covers that path). -/
+theorem value_lowering_correct_ext {V : Type} (d : Dom V) (hd : d.Lawful) (e : Cond)
+    (st F : CState) (reg : Nat) (ec : ExpCtx) (ρ γ : Nat → V) (v : V)
+    (htop : st.regTop ≤ reg) (hloc : LocalsBelow reg e) (hreg : reg + rh e < 256) (hdest : savereg ec reg ≤ reg)
+    (hev : CondSpec.eval d ρ γ e = some v) (hok : ∀ L, LabelOK F L)
+    (hF : (compileExpr st reg e ec).1.code <+: F.code)
+    (hK : (compileExpr st reg e ec).1.consts <+: F.consts)
+    (hlab : ∀ L, st.labelId ≤ L → L < (compileExpr st reg e ec).1.labelId →
+        getLabelPc F L = getLabelPc (compileExpr st reg e ec).1 L) :
+    ∃ ρ', Reaches d (P0 F) F.consts ⟨st.code.length, ρ, γ⟩ ⟨(compileExpr st reg e ec).1.code.length, ρ', γ⟩ ∧
+      ρ' (savereg ec reg) = v ∧ ∀ x, x < reg → x ≠ savereg ec reg → ρ' x = ρ x :=
+  (value_main d hd e).1 st F reg ec ρ γ v htop hloc hreg hdest hev hok hF hK hlab
+
+/-- **branch_lowering_correct_ext** — the branch-context theorem for EVERY expression (any `hasnextcond`, labels bound
+    anywhere): and / or / not become jumps, a relational operator one comparison + jump over ARBITRARY operand
+    expressions, any other expression is evaluated (through PropagateMV) and tested.  Control ends at the then-label
+    iff the manual's value is truthy, else at the else-label (or, for the side that does not jump, behind the code);
+    registers below `reg` are unchanged. -/
+theorem branch_lowering_correct_ext {V : Type} (d : Dom V) (hd : d.Lawful) (e : Cond)
+    (st F : CState) (reg thenl elsel : Nat) (hasnext : Bool) (ρ γ : Nat → V) (v : V)
+    (htop : st.regTop ≤ reg) (hloc : LocalsBelow reg e) (hreg : reg + rh e < 256) (hok : ∀ L, LabelOK F L)
+    (hev : CondSpec.eval d ρ γ e = some v)
+    (hF : (compileBranchCondition st reg e thenl elsel hasnext).code <+: F.code)
+    (hK : (compileBranchCondition st reg e thenl elsel hasnext).consts <+: F.consts)
+    (hlab : ∀ L, st.labelId ≤ L → L < (compileBranchCondition st reg e thenl elsel hasnext).labelId →
+        getLabelPc F L = getLabelPc (compileBranchCondition st reg e thenl elsel hasnext) L) :
+    ∃ ρ' pc', Reaches d (P0 F) F.consts ⟨st.code.length, ρ, γ⟩ ⟨pc', ρ', γ⟩ ∧ (∀ x, x < reg → ρ' x = ρ x) ∧
+      BranchOut F thenl elsel hasnext (compileBranchCondition st reg e thenl elsel hasnext).code.length (d.truthy v) pc' :=
+  bcx_correct d hd e st F reg thenl elsel hasnext ρ γ v htop hloc hreg hok hev hF hK hlab
+
+/-- **propagation_pops_only_the_operands_own_load** — PropagateKMV / PropagateMV (`kmv`) applied to one operand `c`
+    compiled at the free register `reg ≥ regTop`: whenever it pops an instruction, that instruction was the ENTIRE code
+    of the operand, and its target register is `reg` — the operand's own scratch register, which no instruction emitted
+    so far reads and which is handed out again to the next operand (the returned next-free register is `reg`): the
+    target is dead.  Precisely: the operand is a local `r` (popped `MOVE reg r`, operand field `r`) or — PropagateKMV
+    only — a constant (a literal or a folded tree: popped `LOADK reg k` with `k ≤ 255`, operand field `k + 256`).
+    In every other case nothing is popped and the operand field is `reg`. -/
+theorem propagation_pops_only_the_operands_own_load (kmv : Bool) (c : Cond) (st : CState) (reg : Nat) (htop : st.regTop ≤ reg) :
+    ((opr kmv c reg st).1.code = (comp c (.expr reg ecnone0) st).st.code ∧ (opr kmv c reg st).2.1 = reg ∧ (opr kmv c reg st).2.2 = reg + 1) ∨
+    (∃ i, (comp c (.expr reg ecnone0) st).st.code = st.code ++ [i] ∧ (opr kmv c reg st).1.code = st.code ∧ i.argA = reg ∧
+      (opr kmv c reg st).2.2 = reg ∧
+      ((∃ r, c = .loc r ∧ i = .move reg r ∧ (opr kmv c reg st).2.1 = r) ∨
+       (∃ k idx, konstOf c = some k ∧ kmv = true ∧ idx ≤ Generated.opMaxIndexRk ∧ i = .loadk reg idx ∧
+          (opr kmv c reg st).1.consts[idx]? = some k ∧ (opr kmv c reg st).2.1 = idx + Generated.opBitRk))) := by
+  have hfr := (comp_frame c).1 st reg ecnone0 htop
+  rcases opr_cases kmv c st reg hfr htop with ⟨k, hk, h⟩ | ⟨r, hr, h⟩ | ⟨_, _, h⟩
+  · obtain ⟨hk1, _, hk3, _⟩ := constIndex_spec st k
+    have hcomp := hfr.konst k hk
+    by_cases hcond : reg ≥ (constIndex st k).1.regTop ∧ kmv = true ∧ (constIndex st k).2 ≤ Generated.opMaxIndexRk
+    · right
+      rw [if_pos hcond] at h
+      refine ⟨.loadk reg (constIndex st k).2, ?_, by rw [h]; exact hk3, rfl, by rw [h], Or.inr ⟨k, (constIndex st k).2, hk, hcond.2.1, hcond.2.2, rfl, by rw [h]; exact hk1, by rw [h]⟩⟩
+      rw [hcomp]; simp [loadK, savereg_ecnone0, hk3]
+    · left
+      rw [if_neg hcond] at h
+      rw [h, hcomp]
+      exact ⟨by simp [loadK, savereg_ecnone0], rfl, rfl⟩
+  · right
+    subst hr
+    refine ⟨.move reg r, ?_, by rw [h], rfl, by rw [h], Or.inl ⟨r, rfl, rfl, by rw [h]⟩⟩
+    have := hfr.loc r rfl
+    rw [savereg_ecnone0] at this
+    rw [this]; rfl
+  · left; rw [h]; exact ⟨rfl, rfl, rfl⟩
+
+/-- … and the popped load is not lost: after the operand's (possibly empty) code the operand field denotes the
+    operand's value, every register below `reg` is unchanged, and the field is below the next free register (or a
+    constant), so the code of the next operand cannot overwrite it — the operand lemma behind both theorems above. -/
+theorem operand_value_is_where_the_field_says {V : Type} (d : Dom V) (hd : d.Lawful) (kmv : Bool) (c : Cond)
+    (st F : CState) (reg : Nat) (ρ γ : Nat → V) (vc : V)
+    (htop : st.regTop ≤ reg) (hloc : LocalsBelow reg c) (hreg : reg + rh c < 256) (hev : CondSpec.eval d ρ γ c = some vc)
+    (hok : ∀ L, LabelOK F L)
+    (hF : (opr kmv c reg st).1.code <+: F.code) (hK : (opr kmv c reg st).1.consts <+: F.consts)
+    (hlab : ∀ L, st.labelId ≤ L → L < (opr kmv c reg st).1.labelId → getLabelPc F L = getLabelPc (opr kmv c reg st).1 L) :
+    ∃ ρ1, Reaches d (P0 F) F.consts ⟨st.code.length, ρ, γ⟩ ⟨(opr kmv c reg st).1.code.length, ρ1, γ⟩ ∧
+      (∀ x, x < reg → ρ1 x = ρ x) ∧ rkValue d F.consts ρ1 (opr kmv c reg st).2.1 = some vc ∧
+      ((opr kmv c reg st).2.1 < (opr kmv c reg st).2.2 ∨ 256 ≤ (opr kmv c reg st).2.1) := by
+  obtain ⟨ρ1, h1, h2, h3, h4, _⟩ := opr_sem d hd kmv c (comp_frame c).1 (value_main d hd c).1 st F reg ρ γ vc htop hloc hreg hev hok hF hK hlab
+  exact ⟨ρ1, h1, h2, h3, h4⟩
+
+end Generic
+
+section Examples
+attribute [local instance] intNum
+
+/-- non-vacuity (original fragment): the hypotheses hold for the if statement
     `if l0 and not (g1 or l1 < 3) then return 1 else return 2 end` as compiled by the model of compileIfStmt
     (F = the finished main chunk, st = the store right before the condition). -/
 example : ∃ (e : Cond) (st F : CState),
@@ -137,44 +329,7 @@ example : ∃ (e : Cond) (st F : CState),
   · unfold LabelOK; decide
   · decide
 
-/-- the general form for sub-conditions (any `hasnextcond`, labels bound anywhere): control ends at the
-    then-label / else-label or, for the side that does not jump, behind the condition's code. -/
-theorem branch_lowering_general {V : Type} (d : Dom V) (hd : d.Lawful) (e : Cond) (hfrag : Lowering.BCFrag e)
-    (st F : Compile.CState) (reg thenl elsel : Nat) (hasnext : Bool) (ρ γ : Nat → V) (v : V)
-    (htop : st.regTop ≤ reg) (hloc : Lowering.LocalsBelow reg e) (hreg : reg + 1 < 256)
-    (hLt : Lowering.LabelOK F thenl) (hLe : Lowering.LabelOK F elsel)
-    (hev : CondSpec.eval d ρ γ e = some v)
-    (hF : (Compile.compileBranchCondition st reg e thenl elsel hasnext).code <+: F.code)
-    (hK : (Compile.compileBranchCondition st reg e thenl elsel hasnext).consts <+: F.consts)
-    (hlab : ∀ L, st.labelId ≤ L → L < (Compile.compileBranchCondition st reg e thenl elsel hasnext).labelId →
-        Compile.getLabelPc F L = Compile.getLabelPc (Compile.compileBranchCondition st reg e thenl elsel hasnext) L) :
-    ∃ ρ' pc', MiniVM.Reaches d (Lowering.P0 F) F.consts ⟨st.code.length, ρ, γ⟩ ⟨pc', ρ', γ⟩ ∧ (∀ x, x < reg → ρ' x = ρ x) ∧
-      Lowering.BranchOut F thenl elsel hasnext (Compile.compileBranchCondition st reg e thenl elsel hasnext).code.length (d.truthy v) pc' :=
-  Lowering.bc_correct d hd e hfrag st F reg thenl elsel hasnext ρ γ v htop hloc hreg hLt hLe hev hF hK hlab
-
-/-- **value_lowering_correct** (value contexts: `local x = e`, `x = e` with x an EXISTING local that may also be an
-    operand, `g = e`, `return e`, operand of not / a relational operator, any position of a multiple assignment) —
-    for every condition tree of the fragment compiled by `compileExpr` into destination context `ec`
-    (destination `savereg ec reg` = `reg` or a local below it), every compile state, register file and atom valuation
-    on which the expression does not raise, and every completion `F`: running the label-resolved code from the
-    first instruction of the expression reaches the end of its code with the manual's VALUE in the destination,
-    and every register below `reg` other than the destination is unchanged.  This covers `compileLogicalOpExpr`
-    (operands through `compileLogicalOpExprAux`: TEST vs TESTSET — today's fix —, locals tested in place, the
-    "last operand" MOVE, the lb.t/lb.f LOADBOOL pair, the removal of the final `JMP endlabel`),
-    `compileRelationalOpExpr` and `not` in value position.  (Unbounded: structural induction, both modes at once.) -/
-theorem value_lowering_correct {V : Type} (d : Dom V) (hd : d.Lawful) (e : Cond) (hfrag : BCFrag e)
-    (st F : CState) (reg : Nat) (ec : ExpCtx) (ρ γ : Nat → V) (v : V)
-    (htop : st.regTop ≤ reg) (hloc : LocalsBelow reg e) (hreg : reg + 1 < 256) (hdest : savereg ec reg ≤ reg)
-    (hev : CondSpec.eval d ρ γ e = some v) (hok : ∀ L, LabelOK F L)
-    (hF : (compileExpr st reg e ec).1.code <+: F.code)
-    (hK : (compileExpr st reg e ec).1.consts <+: F.consts)
-    (hlab : ∀ L, st.labelId ≤ L → L < (compileExpr st reg e ec).1.labelId →
-        getLabelPc F L = getLabelPc (compileExpr st reg e ec).1 L) :
-    ∃ ρ', Reaches d (P0 F) F.consts ⟨st.code.length, ρ, γ⟩ ⟨(compileExpr st reg e ec).1.code.length, ρ', γ⟩ ∧
-      ρ' (savereg ec reg) = v ∧ ∀ x, x < reg → x ≠ savereg ec reg → ρ' x = ρ x :=
-  (value_main d hd e hfrag).1 st F reg ec ρ γ v htop hloc hreg hdest hev hok hF hK hlab
-
-/-- non-vacuity: the hypotheses hold for `l0 = (l1 or l1) and l0` (the witness of the TESTSET defect fixed today:
+/-- non-vacuity (original fragment): the hypotheses hold for `l0 = (l1 or l1) and l0` (the witness of the TESTSET defect:
     destination = an operand) as compiled by the model's compileAssignStmt inside a main chunk. -/
 example : ∃ (e : Cond) (st F : CState) (ec : ExpCtx),
     BCFrag e ∧ st.regTop ≤ 2 ∧ LocalsBelow 2 e ∧ savereg ec 2 = 0 ∧ (∀ L, LabelOK F L) ∧
@@ -196,7 +351,70 @@ example : ∃ (e : Cond) (st F : CState) (ec : ExpCtx),
     exact (show ∀ L, L < 6 → 1 ≤ L → getLabelPc _ L = getLabelPc _ L by decide) L h2 h1
   · decide
 
+/-- the expression of the extended-fragment witnesses:
+    `l0 = l0 + (l1 * (2 + 3) .. "x" .. -l0 < #g0 and l1 % 2)` — destination = an operand, a folded sub-tree (2 + 3),
+    a local operand (MOVE propagated), a constant operand (LOADK propagated), a 3-chain of concatenations, unary minus
+    and # on non-leaves, a relational operator over non-leaf operands, and / or inside arithmetic. -/
+def extWitness : Cond :=
+  .arith .add (.loc 0)
+    (.and (.rel .lt (.concat (.arith .mul (.loc 1) (.arith .add (.num 2) (.num 3))) (.concat (.str "x") (.unm (.loc 0)))) (.len (.ev 0)))
+          (.arith .mod (.loc 1) (.num 2)))
+
+/-- non-vacuity of `value_lowering_correct_ext`: its hypotheses hold for `l0 = extWitness` as compiled by the model's
+    compileAssignStmt inside a main chunk (destination l0 is also an operand; 16 instructions are emitted). -/
+example : ∃ (st F : CState) (ec : ExpCtx),
+    st.regTop ≤ 2 ∧ LocalsBelow 2 extWitness ∧ 2 + rh extWitness < 256 ∧ savereg ec 2 = 0 ∧ (∀ L, LabelOK F L) ∧
+    (compileExpr st 2 extWitness ec).1.code <+: F.code ∧ (compileExpr st 2 extWitness ec).1.consts <+: F.consts ∧
+    (∀ L, st.labelId ≤ L → L < (compileExpr st 2 extWitness ec).1.labelId →
+        getLabelPc F L = getLabelPc (compileExpr st 2 extWitness ec).1 L) ∧
+    st.code.length + 10 < (compileExpr st 2 extWitness ec).1.code.length := by
+  refine ⟨{ code := [.abc Generated.OP_VARARG 0 3 0], regTop := 2 },
+    compileMain 2 (Block.ofList [.assign [.loc 0] [extWitness], .ret [.loc 0, .loc 1]]),
+    ⟨ecLocal, 0⟩, ?_, ?_, ?_, ?_, ?_, ?_, ?_, ?_, ?_⟩
+  · decide
+  · simp [LocalsBelow, extWitness]
+  · decide
+  · decide
+  · exact labelOK_of_all _ (by decide)
+  · decide
+  · decide
+  · intro L h1 h2
+    exact (show ∀ L, L < 5 → 1 ≤ L → getLabelPc _ L = getLabelPc _ L by decide) L h2 h1
+  · decide
+
+/-- non-vacuity of `branch_lowering_correct_ext`: `while extWitness … ` — the same expression as a loop condition. -/
+example : ∃ (st F : CState),
+    st.regTop ≤ 2 ∧ LocalsBelow 2 extWitness ∧ 2 + rh extWitness < 256 ∧ (∀ L, LabelOK F L) ∧
+    (compileBranchCondition st 2 extWitness 1 2 false).code <+: F.code ∧
+    (compileBranchCondition st 2 extWitness 1 2 false).consts <+: F.consts ∧
+    (∀ L, st.labelId ≤ L → L < (compileBranchCondition st 2 extWitness 1 2 false).labelId →
+        getLabelPc F L = getLabelPc (compileBranchCondition st 2 extWitness 1 2 false) L) ∧
+    st.code.length + 10 < (compileBranchCondition st 2 extWitness 1 2 false).code.length := by
+  refine ⟨{ code := [.abc Generated.OP_VARARG 0 3 0], labelId := 4, regTop := 2, labelPc := [(3, 0)] },
+    compileMain 2 (Block.ofList [.whileS extWitness (Block.ofList [.ret [.num 1]]), .ret [.num 2]]), ?_, ?_, ?_, ?_, ?_, ?_, ?_, ?_⟩
+  · decide
+  · simp [LocalsBelow, extWitness]
+  · decide
+  · exact labelOK_of_all _ (by decide)
+  · decide
+  · decide
+  · intro L h1 h2
+    exact (show ∀ L, L < 8 → 4 ≤ L → getLabelPc _ L = getLabelPc _ L by decide) L h2 h1
+  · decide
+
+/-- non-vacuity of the propagation theorem: in `l1 * 5` both operands are popped (MOVE of the local, LOADK of the
+    constant), in `g0 * (l1 + l1)` none is. -/
+example : (opr true (.loc 1) 2 { regTop := 2 }).2 = (1, 2) ∧ (opr true (.num 5) 2 { regTop := 2 }).2 = (0 + 256, 2) ∧
+    (opr true (.ev 0) 2 { regTop := 2 }).2 = (2, 3) ∧ (opr true (.arith .add (.loc 1) (.loc 1)) 3 { regTop := 2 }).2 = (3, 4) := by
+  decide
+
+end Examples
+
 /-! ## 3. multiple assignment to locals -/
+
+section Generic2
+variable [NumStruct]
+
 
 /-- the statement "the assignment compiler `compile` computes the simultaneous assignment": for every number of
     distinct local targets `ts`, right-hand sides that are locals or constants, and every register file, the code
@@ -236,17 +454,19 @@ theorem assign_rhs_value_is_spec {V : Type} (d : Compile.Dom V) (ρ γ : Nat →
 /-- a value domain over `Nat` for the witness (values are just numbers). -/
 def natDom : Compile.Dom Nat :=
   { nilV := 100, trueV := 101, falseV := 102, truthy := fun _ => true, num := fun _ => 0, str := fun _ => 0,
-    eq := fun _ _ => none, lt := fun _ _ => none, le := fun _ _ => none }
+    eq := fun _ _ => none, lt := fun _ _ => none, le := fun _ _ => none,
+    arith := fun _ _ _ => none, unm := fun _ => none, len := fun _ => none, concat := fun _ _ => none }
 
 /-- **assign_locals_parallel_prefix_fails** — the compiler as it was before today's fix (every local target stored
     in place, snapshot f14c8c8) does NOT compute the simultaneous assignment: witness `a, b = b, a`. -/
 theorem assign_locals_parallel_prefix_fails : ¬ AssignParallel Compile.compileAssignStmtPreFix := by
   intro h
-  obtain ⟨seg, hcode, hsem⟩ := h Nat natDom { regTop := 2 } [0, 1] [.loc 1, .loc 0] (by decide) (by decide)
-    (by intro e he; simp at he; rcases he with rfl | rfl <;> simp [Assign.SimpleRhs]) (by decide)
+  obtain ⟨seg, hcode, hsem⟩ := h Nat natDom { regTop := 2 } [0, 1] [.loc 1, .loc 0] (by decide)
+    (by intro t ht; simp at ht; show t < 2; omega)
+    (by intro e he; simp at he; rcases he with rfl | rfl <;> simp [Assign.SimpleRhs]) (by show 2 ≤ 256; omega)
   have hseg : seg = [.move 0 1, .move 1 0] := by
     have : (Compile.compileAssignStmtPreFix { regTop := 2 } ([0, 1].map Compile.Target.loc) [.loc 1, .loc 0]).code
-        = [.move 0 1, .move 1 0] := by decide
+        = [.move 0 1, .move 1 0] := rfl
     rw [this] at hcode
     simpa using hcode.symm
   subst hseg
@@ -262,13 +482,18 @@ theorem assign_locals_parallel_prefix_fails : ¬ AssignParallel Compile.compileA
 /-- **jump_threading_sound** — the jump-to-jump loop of `patchCode` (≤ 5 hops, targets read from the UNPATCHED code —
     the repaired loop) computes, for the `JMP` at `pc`, a distance that leads exactly where the label-resolved code
     arrives from `pc` by executing one or more JMP instructions (registers untouched).  Hence replacing the jump by
-    `JMP distance` (or by NOP when the distance is 0) only skips executions of JMPs. -/
+    `JMP distance` (or by NOP when the distance is 0) only skips executions of JMPs.
+    `hlab`: every label of the table reads ≥ -1 — true of every table the compiler builds (labels are bound by
+    `SetLabelPc(label, LastPC())`, a missing key reads 0; cf. `labelOK_of_all`).  The hypothesis became necessary when
+    the model's loop was brought up to /repo HEAD's patchCode, which no longer indexes `orig` with a target outside
+    the code but stops threading there (`next < 0 || next >= len(orig)` → `break`); the target at or past the END of
+    the code is covered (the label-resolved JMP goes there too). -/
 theorem jump_threading_sound {V : Type} (d : Dom V) (orig : List Instr) (lp : List (Nat × Int)) (consts : List Konst)
-    (pc : Nat) (sbx : Int) (ρ g : Nat → V) (res : Int)
+    (pc : Nat) (sbx : Int) (ρ g : Nat → V) (res : Int) (hlab : ∀ L, -1 ≤ lookupLabel lp L)
     (hcur : orig[pc]? = some (.jmp sbx)) (h : threadJmp orig lp pc 5 (.jmp sbx) 0 = .ok res) :
     0 ≤ (pc : Int) + res + 1 ∧
       ReachesPlus d (resolveLabels orig lp) consts ⟨pc, ρ, g⟩ ⟨((pc : Int) + res + 1).toNat, ρ, g⟩ :=
-  Lowering.jump_threading_sound d orig lp consts pc sbx ρ g res 4 hcur h
+  Lowering.jump_threading_sound d orig lp consts pc sbx ρ g res 4 hlab hcur h
 
 /-- a machine started in `s` halts (RETURN / foreign instruction) in state `h`. -/
 def HaltsAt {V : Type} (d : Dom V) (code : List Instr) (consts : List Konst) (s h : VM V) : Prop :=
@@ -283,11 +508,13 @@ def patch_preserves_halting_full : Prop :=
   ∀ (V : Type) (d : Dom V) (st : CState) (code : List Instr) (nregs : Nat), patchCode st = .ok (code, nregs) →
     ∀ (consts : List Konst) (s h : VM V), HaltsAt d (P0 st) consts s h ↔ HaltsAt d code consts s h
 
-/-- NOT PROVED: the lowering theorems for relational operators whose operands are arbitrary expressions and for
-    conditions that raise (`eval = none` ⇒ the machine ends in `luaError` at the same comparison). -/
+/-- the TOTAL form of the value-context theorem: for every expression, destination context, compile state, register
+    file and completion `F`, the emitted code delivers the manual's value when the manual's evaluation succeeds, and
+    ends in a Lua error when it raises (`none`: some comparison / arithmetic operation / unary minus / length /
+    concatenation answers "error" on its operand values, operands evaluated left to right). -/
 def lowering_total_full : Prop :=
   ∀ (V : Type) (d : Dom V), d.Lawful → ∀ (e : Cond) (st F : CState) (reg : Nat) (ec : ExpCtx) (ρ γ : Nat → V),
-    st.regTop ≤ reg → LocalsBelow reg e → reg + 1 < 256 → savereg ec reg ≤ reg → (∀ L, LabelOK F L) →
+    st.regTop ≤ reg → LocalsBelow reg e → reg + rh e < 256 → savereg ec reg ≤ reg → (∀ L, LabelOK F L) →
     (compileExpr st reg e ec).1.code <+: F.code → (compileExpr st reg e ec).1.consts <+: F.consts →
     (∀ L, st.labelId ≤ L → L < (compileExpr st reg e ec).1.labelId →
         getLabelPc F L = getLabelPc (compileExpr st reg e ec).1 L) →
@@ -295,5 +522,88 @@ def lowering_total_full : Prop :=
     | some v => ∃ ρ', Reaches d (P0 F) F.consts ⟨st.code.length, ρ, γ⟩ ⟨(compileExpr st reg e ec).1.code.length, ρ', γ⟩ ∧
         ρ' (savereg ec reg) = v ∧ ∀ x, x < reg → x ≠ savereg ec reg → ρ' x = ρ x
     | none => ∃ n site, run d (P0 F) F.consts n ⟨st.code.length, ρ, γ⟩ = some (.luaError site)
+
+/-- **lowering_total** — `lowering_total_full` (until now "stated, not proved") holds: the code of every expression
+    raises exactly when the manual's evaluation raises, and delivers the manual's value otherwise.  (Two structural
+    inductions over the tree: `value_main` for the values, `err_main` for the errors — the latter uses the former for
+    the operands that are evaluated before the failing one.) -/
+theorem lowering_total : lowering_total_full := by
+  intro V d hd e st F reg ec ρ γ htop hloc hreg hdest hok hF hK hlab
+  cases hev : CondSpec.eval d ρ γ e with
+  | some v => exact (value_main d hd e).1 st F reg ec ρ γ v htop hloc hreg hdest hev hok hF hK hlab
+  | none => exact (err_main d hd e st F reg ec ρ γ htop hloc hreg hdest hev hok hF hK hlab).run
+
+/-- **branch_lowering_raises** — the branch-context counterpart: a condition whose evaluation raises makes the code of
+    `compileBranchCondition` raise (any `hasnextcond`, labels bound anywhere). -/
+theorem branch_lowering_raises {V : Type} (d : Dom V) (hd : d.Lawful) (e : Cond)
+    (st F : CState) (reg thenl elsel : Nat) (hasnext : Bool) (ρ γ : Nat → V)
+    (htop : st.regTop ≤ reg) (hloc : LocalsBelow reg e) (hreg : reg + rh e < 256) (hok : ∀ L, LabelOK F L)
+    (hev : CondSpec.eval d ρ γ e = none)
+    (hF : (compileBranchCondition st reg e thenl elsel hasnext).code <+: F.code)
+    (hK : (compileBranchCondition st reg e thenl elsel hasnext).consts <+: F.consts)
+    (hlab : ∀ L, st.labelId ≤ L → L < (compileBranchCondition st reg e thenl elsel hasnext).labelId →
+        getLabelPc F L = getLabelPc (compileBranchCondition st reg e thenl elsel hasnext) L) :
+    ∃ n site, run d (P0 F) F.consts n ⟨st.code.length, ρ, γ⟩ = some (.luaError site) :=
+  (bcx_err d hd e st F reg thenl elsel hasnext ρ γ htop hloc hreg hok hev hF hK hlab).run
+
+/-- **binary_operands_left_to_right** — the two operands of an arithmetic / relational operator
+    (`b := reg; …KMV(Lhs); c := reg; …KMV(Rhs)`): the code is the left operand's code followed by the right operand's;
+    a run passes through the midpoint behind the left operand's code, where the left operand field already denotes the
+    left value (no instruction of the right operand has run yet), and at the end both fields denote the two values with
+    every register below `reg` unchanged.  (With `lowering_total`: if the left operand raises, the error happens
+    before any instruction of the right operand.) -/
+theorem binary_operands_left_to_right {V : Type} (d : Dom V) (hd : d.Lawful) (l r : Cond)
+    (st F : CState) (reg : Nat) (ρ γ : Nat → V) (x y : V)
+    (htop : st.regTop ≤ reg) (hll : LocalsBelow reg l) (hlr : LocalsBelow reg r) (hreg : reg + max (rh l) (rh r + 1) < 256)
+    (hx : CondSpec.eval d ρ γ l = some x) (hy : CondSpec.eval d ρ γ r = some y) (hok : ∀ L, LabelOK F L)
+    (hF : (bops l r st reg).1.code <+: F.code) (hK : (bops l r st reg).1.consts <+: F.consts)
+    (hlab : ∀ L, st.labelId ≤ L → L < (bops l r st reg).1.labelId → getLabelPc F L = getLabelPc (bops l r st reg).1 L) :
+    (opr true l reg st).1.code <+: (bops l r st reg).1.code ∧
+    ∃ ρ1 ρ2, Reaches d (P0 F) F.consts ⟨st.code.length, ρ, γ⟩ ⟨(opr true l reg st).1.code.length, ρ1, γ⟩ ∧
+      rkValue d F.consts ρ1 (bops l r st reg).2.1 = some x ∧ (∀ z, z < reg → ρ1 z = ρ z) ∧
+      Reaches d (P0 F) F.consts ⟨(opr true l reg st).1.code.length, ρ1, γ⟩ ⟨(bops l r st reg).1.code.length, ρ2, γ⟩ ∧
+      (∀ z, z < reg → ρ2 z = ρ z) ∧
+      rkValue d F.consts ρ2 (bops l r st reg).2.1 = some x ∧ rkValue d F.consts ρ2 (bops l r st reg).2.2 = some y :=
+  bops_sem_mid d hd l r (comp_frame l).1 (comp_frame r).1 (value_main d hd l).1 (value_main d hd r).1
+    st F reg ρ γ x y htop hll hlr hreg hx hy hok hF hK hlab
+
+end Generic2
+
+section Examples2
+attribute [local instance] intNum
+
+/-- a small LAWFUL value domain over the integer number structure (nil, booleans, numbers, strings; arithmetic only on
+    numbers, `..` only on strings, `#` only on strings, `<` on numbers): for the non-vacuity of the total theorem. -/
+inductive XV where
+  | nil | bool (b : Bool) | num (n : Int) | str (s : String)
+deriving DecidableEq
+
+def exDom : Dom XV where
+  nilV := .nil
+  trueV := .bool true
+  falseV := .bool false
+  truthy := fun v => match v with | .nil => false | .bool false => false | _ => true
+  num := .num
+  str := .str
+  eq := fun a b => some (decide (a = b))
+  lt := fun a b => match a, b with | .num x, .num y => some (decide (x < y)) | _, _ => none
+  le := fun a b => match a, b with | .num x, .num y => some (decide (x ≤ y)) | _, _ => none
+  arith := fun op a b => match a, b with | .num x, .num y => some (.num (NumStruct.apply op x y)) | _, _ => none
+  unm := fun a => match a with | .num x => some (.num (-x)) | _ => none
+  len := fun a => match a with | .str s => some (.num s.length) | _ => none
+  concat := fun a b => match a, b with | .str x, .str y => some (.str (x ++ y)) | _, _ => none
+
+theorem exDom_lawful : exDom.Lawful :=
+  ⟨rfl, rfl, rfl, fun _ => rfl, fun _ => rfl, fun _ _ _ => rfl, fun _ => rfl⟩
+
+/-- non-vacuity of `lowering_total`: both branches occur — `l0 + 1 .. "x"` (with `..` binding tighter: `l0 + (1 .. "x")`
+    is what we write) evaluates or raises depending on the register file. -/
+example : CondSpec.eval exDom (fun _ => .num 2) (fun _ => .nil) (.arith .add (.loc 0) (.arith .mul (.num 2) (.num 3))) = some (.num 8) := by decide
+example : CondSpec.eval exDom (fun _ => .nil) (fun _ => .nil) (.arith .add (.loc 0) (.arith .mul (.num 2) (.num 3))) = none := by decide
+example : CondSpec.eval exDom (fun _ => .str "a") (fun _ => .nil) (.rel .lt (.len (.concat (.loc 0) (.str "bc"))) (.unm (.loc 1))) = none := by decide
+example : CondSpec.eval exDom (fun i => if i = 0 then .str "a" else .num (-5)) (fun _ => .nil)
+    (.rel .lt (.len (.concat (.loc 0) (.str "bc"))) (.unm (.loc 1))) = some (.bool true) := by decide
+
+end Examples2
 
 end GLua.Props.C01
